@@ -112,8 +112,9 @@ DecRest(buf) ==
 DecSeen(buf, seen) == seen \/ UnitsIn(buf) # <<>>
 
 -----------------------------------------------------------------------------
-(* specification-level definitions: the text, and positions computed from widths
-(TLC re-evaluates a definition at every use: invariants bind Input once with LET) *)
+(* specification-level definitions: the text, and positions computed from the widths.
+   TLC re-evaluates a definition at every use, so the invariants bind Input once
+   with LET and pass it on. *)
 Input    == Concat(strings)
 NChars   == Len(Input)
 WidthsOf(inp) == [j \in 1..Len(inp) |-> WidthOf(inp[j])]
